@@ -221,6 +221,106 @@ def install(only=None):
                 return "index has %d entries for %d objects" % (len(result), len(object_list))
         wrap(S.SegmentIndexCache, "get_index", "C02", "path-index-maps-to-positions-in-this-list", post=post_get_index)
 
+    # ---- C02: the object list a segment's metadata denotes (independent parse + spec.inherit.denote), and the
+    #      frame: earlier segments' lists and objects are never modified
+    if want("C02"):
+        from spec import inherit as INH
+
+        class _SkipContract(Exception):
+            pass
+
+        def parse_entries(file, big):
+            o = ">" if big else "<"
+            pos = file.tell()
+            try:
+                def rd(n):
+                    b = file.read(n)
+                    if len(b) != n:
+                        raise _SkipContract("truncated metadata")
+                    return b
+                (count,) = struct.unpack(o + "L", rd(4))
+                entries = []
+                for _ in range(count):
+                    (ln,) = struct.unpack(o + "L", rd(4))
+                    path = rd(ln).decode("utf-8")
+                    (header,) = struct.unpack(o + "L", rd(4))
+                    idx = None
+                    if header in (0xFFFFFFFF, 0):
+                        pass
+                    elif header in (20, 28):
+                        (tcode, dim, nv) = struct.unpack(o + "LLQ", rd(16))
+                        if tcode == 0x20:
+                            (total,) = struct.unpack(o + "Q", rd(8))
+                        else:
+                            w = L.TYPES.get(tcode, (None, None))[1]
+                            if w is None:
+                                raise _SkipContract("type without width")
+                            total = nv * w * dim
+                        idx = (nv, total, tcode)
+                    else:
+                        raise _SkipContract("DAQmx or unknown raw data index")
+                    (nprops,) = struct.unpack(o + "L", rd(4))
+                    for _ in range(nprops):
+                        (ln,) = struct.unpack(o + "L", rd(4))
+                        rd(ln)
+                        (pt,) = struct.unpack(o + "L", rd(4))
+                        if pt == 0x20:
+                            (ln,) = struct.unpack(o + "L", rd(4))
+                            rd(ln)
+                        else:
+                            w = L.TYPES.get(pt, (None, None))[1]
+                            if w is None:
+                                raise _SkipContract("property type without width")
+                            rd(w)
+                    entries.append((path, header, idx))
+                return entries
+            finally:
+                file.seek(pos)
+
+        def view(o):
+            code = None
+            for c, cls in TY.tds_data_types.items():
+                if cls is o.data_type:
+                    code = c
+            return (o.path, bool(o.has_data), (o.number_values, o.data_size, code))
+
+        def pre_rso(self, file, previous_segment_objects, index_cache, previous_segment):
+            if not self.toc_mask & 2:
+                return ("nometa", None, None, None)
+            big = bool(self.toc_mask & 64)
+            entries = parse_entries(file, big)
+            prev_list = None if previous_segment is None else [view(o) for o in previous_segment.ordered_objects]
+            last = [(p, view(o)[2]) for p, o in previous_segment_objects.items()]
+            snap = None if previous_segment is None else \
+                [(o, view(o)) for o in previous_segment.ordered_objects]
+            return (entries, prev_list, last, snap)
+
+        def post_rso(ctx, result, self, file, previous_segment_objects, index_cache, previous_segment):
+            entries, prev_list, last, snap = ctx
+            if entries == "nometa":
+                if [id(o) for o in self.ordered_objects] != [id(o) for o in previous_segment.ordered_objects]:
+                    return "segment without metadata does not carry the previous segment's objects over"
+                return None
+            try:
+                exp = INH.denote(prev_list, last, bool(self.toc_mask & 4), entries)
+            except INH.Invalid:
+                return "an encoding the format forbids was accepted"
+            got = [view(o) for o in self.ordered_objects]
+            if [e[0] for e in exp] != [g[0] for g in got]:
+                return "object order %r, metadata denotes %r" % ([g[0] for g in got], [e[0] for e in exp])
+            for e, g in zip(exp, got):
+                if e[1] != g[1] or (e[1] and e[2] is not None and e[2] != g[2]):
+                    return "object %s: got %r, metadata denotes %r" % (e[0], g, e)
+            if snap is not None:
+                if [o for (o, _) in snap] != list(previous_segment.ordered_objects) and \
+                        [id(o) for (o, _) in snap] != [id(o) for o in previous_segment.ordered_objects]:
+                    return "the previous segment's object list was modified"
+                for (o, v) in snap:
+                    if view(o) != v:
+                        return "an object of the previous segment was modified in place: %r -> %r" % (v, view(o))
+        wrap(S.TdmsSegment, "read_segment_objects", "C02", "object-list-is-what-the-metadata-denotes+frame",
+             pre=pre_rso, post=post_rso)
+
     # ---- C12: timestamps
     if want("C12") or want("C07"):
         EPOCH = int(np.datetime64("1904-01-01T00:00:00", "us").astype("int64"))
